@@ -1029,6 +1029,26 @@ def field_eqs(desc):
 def gen_C13(rng, tier):
     L = []
     n = 400 if tier == "thorough" else 90
+    # quotient rings by an ideal that contains 1: zero is the only normal form, also for `Pow(0)` and the constant 1
+    for _ in range(80 if tier == "thorough" else 20):
+        desc = field_desc(*rng.choice(SMALL_Q[:9]))
+        c = rand_elem(desc, rng, special=0)
+        while c == "0":
+            c = rand_elem(desc, rng, special=0)
+        gens = rng.choice(["0:0:%s" % c, "1:1:1/0:0:1;1:0:1", "0:1:1;0:1:1/0:0:%s" % c, "2:0:1/0:0:1;2:0:1"])
+        h = H(rng, desc, bspec=bspec(rng, gens=gens), snap=True)
+        qs = [h.bpoly(nterms=rng.choice([1, 2, 3]), box=3, ring=1) for _ in range(2)]
+        r = h.newb(); h.ops.append("%s=nats@1 0:0:1" % r); qs.append(r)
+        b0 = h.bpoly(nterms=2, box=3, ring=0)
+        e1 = h.newb(); h.ops.append("%s=embed@1 %s:1" % (e1, b0)); qs.append(e1)
+        for a in qs[:3]:
+            for n_ in (0, 1, 2):
+                h.ops.append("%s=pow %s %d" % (h.newb(), a, n_))
+            h.ops.append("%s=times %s %s" % (h.newb(), a, rng.choice(qs)))
+            h.ops.append("%s=plus %s %s" % (h.newb(), a, rng.choice(qs)))
+        z = h.newb(); h.ops.append("%s=zero@1" % z)
+        h.ops.append("eq %s %s" % (qs[0], z)); h.ops.append("obs %s" % qs[2])
+        L.append(h.line())
     # quotient rings made in mid-history from an ideal OBJECT, whatever has been asked of / done to it before
     for _ in range(200 if tier == "thorough" else 50):
         desc = field_desc(*rng.choice(SMALL_Q[:9]))
@@ -1685,6 +1705,18 @@ def gen_C17(rng, tier):
                 return "/".join(cs) or "1"
             gens = ";".join(_canon_poly() for _ in range(rng.randrange(1, 3)))
             h.ops.append("uquot@%d %d:%s" % (k, j, gens))
+            # the public Reduce of a univariate ideal (also of a unit ideal) applied to polynomials of its own ring, of
+            # another ring, of the quotient ring, and to one that carries an error
+            for _ in range(rng.randrange(1, 4)):
+                jj = rng.choice([0, 2])
+                gens2 = rng.choice([_canon_poly(), rand_elem(desc, rng, special=0) if rand_elem(desc, rng, special=0) != "0" else "1", ";".join([_canon_poly(), _canon_poly()])])
+                tgt = rng.choice([0, 0, 2] + ([1] if quot else []))
+                pp = h.upoly(deg=rng.choice([0, 2, 4]), ring=tgt)
+                h.ops.append("uireduce %d:%s %s" % (jj, gens2, pp)); h.ops.append("obs %s" % pp)
+            if rng.random() < 0.5:
+                f0_ = h.upoly(deg=3, ring=0); g2_ = h.upoly(deg=2, ring=2)
+                bp_ = h.newu(); h.ops.append("%s=plus %s %s" % (bp_, f0_, g2_))
+                h.ops.append("uireduce 0:%s %s" % (rng.choice(["1", _canon_poly()]), bp_))
         pool = good_e + bad_e + [z]
         for _ in range(rng.randrange(3, 14)):
             a, b = rng.choice(pool), rng.choice(pool)
